@@ -114,6 +114,13 @@ class ChannelHook:
         r = eng.state.heap.get((me.oid, "requests"))
         if isinstance(r, VList) and r.lid == lst.lid:
             eng.state.ghost["popped_request"] = True
+            if eng.role == "W":
+                eng.state.ghost["pulled"] = False       # R5: the queue changed after the last wake-up
+
+    def on_attr_write(self, eng, obj=None, field=None, val=None, node=None):
+        me = getattr(eng, "self_under_verification", None)
+        if me is not None and isinstance(obj, VObj) and obj.oid == me.oid and eng.role == "W" and field in ("close_when_flushed", "will_close", "requests"):
+            eng.state.ghost["pulled"] = False           # R5: a close decision / queue change must be followed by a wake-up
 
     def on_list_write(self, eng, lst=None, node=None, op=None, arg=None, **kw):
         me = getattr(eng, "self_under_verification", None)
@@ -268,6 +275,7 @@ def install(reg):
                  ("C04-no-read-while-output-pending", "implies(self.total_outbufs_len > 0, not result)"),
                  ("lookahead", "implies(len(self.requests) > self.adj.channel_request_lookahead, not result)")]))
     install_service(reg)
+    install_ctor(reg)
     reg.add(FuncContract(CH + ".writable", returns=Bool,
         ensures=[("C18-close-flags-make-writable", "implies(self.will_close or self.close_when_flushed, result)"),
                  ("C05-pending-output-makes-writable", "implies(self.total_outbufs_len > 0, result)")]))
@@ -304,7 +312,33 @@ def install_service(reg):
                            modifies=["self.total_outbufs_len", "self.connected", "self.last_activity", "self.outbufs", "self.current_outbuf_count"])}))
 
 
+def registered(eng):
+    return VInt(eng.state.ghost.get("registered", 0))
+
+
+class RegisterHook:
+    """ghost: number of socket-map / active_channels entries stored (opaque maps: every item store counts)"""
+    def on_opaque_setitem(self, eng, base=None, key=None, val=None, node=None):
+        if base.tag in ("socketmap", "active_channels"):
+            eng.state.ghost["registered"] = eng.state.ghost.get("registered", 0) + 1
+
+
+def install_ctor(reg):
+    SOCK = "model.Sock"
+    reg.spec_funcs["registered"] = registered
+    reg.add_class(ClassSpec(SOCK, fields={}, env_methods={
+        "getsockopt": EnvSpec(returns=Int, raises=["OSError"]), "setblocking": EnvSpec(returns=None, raises=["OSError"]), "fileno": EnvSpec(returns=Int)}))
+    reg.classes[SERVER].fields["active_channels"] = Opaque("active_channels")
+    reg.inline.update({"wasyncore.dispatcher.__init__", "wasyncore.dispatcher.set_socket", "wasyncore.dispatcher.add_channel", CH + ".add_channel"})
+    reg.add(FuncContract(CH + ".__init__", params={"server": Obj(SERVER), "sock": Obj(SOCK), "addr": Opaque("addr"), "adj": Obj("adjustments.Adjustments"), "map": Opaque("socketmap")},
+        fresh_self=True, raises=["OSError"], check_invariant=False,
+        ensures=[("C13-registered-in-map-and-active-channels", "registered() == 2"), ("connected", "self.connected")],
+        ensures_exc=[("C13-nothing-registered-when-set-up-fails", "registered() == 0")]))
+    reg.funcs[CH + ".__init__"].frame_check = False
+
+
 def attach(eng, reg, qual):
+    eng.hooks.append(RegisterHook())
     def me(e):
         return getattr(e, "self_under_verification", None)
     eng.hooks.append(MonitorHook(reg.monitors, me))
